@@ -6,16 +6,25 @@ import hv
 from hv import Case
 
 SPEC = {
-    "lean_modules": ["Honeycomb.Props.C18"],
-    "required_theorems": ["C18_add_fresh", "C18_insert_fresh", "C18_remove_refuses_iff", "C18_D10_reused_slot_keeps_stale_value", "C18_orbit_excludes_removed"],
+    "lean_modules": ["Honeycomb.Props.C18", "Honeycomb.Props.C18Gen", "Honeycomb.Props.C18b"],
+    # Gen/Alloc.lean is re-translated from dim2/basic_ops.rs, dim3/basic_ops.rs and attributes/manager.rs before every build
+    "gen": ["alloc"],
+    "required_theorems": [
+        # Props/C18Gen.lean: the translated allocation functions ARE the model's
+        "C18_gen_addFreeDarts2", "C18_gen_addFreeDart2", "C18_gen_addFreeDarts3", "C18_gen_addFreeDart3", "C18_gen_buckets",
+        "C18_gen_insertFreeDart", "C18_gen_removeFreeDartTx", "C18_gen_removeFreeDart", "C18_gen_isFree",
+        "C18_add_fresh", "C18_insert_fresh", "C18_remove_refuses_iff", "C18_remove_twice_in_one_transaction", "C18_orbit3_excludes_removed", "C18_D10_reused_slot_keeps_stale_value", "C18_orbit_excludes_removed"],
     "trusted_base": [
         "Lean 4.33 kernel; axioms propext, Classical.choice, Quot.sound only",
-        "hand-written model (Model/Ops.lean: addFreeDarts, insertFreeDart, removeFreeDart) tied to /repo by the differential run",
+        "hand-written model (Model/Ops.lean: addFreeDarts, insertFreeDart, removeFreeDart) tied to /repo by the differential run AND by "
+        "translation: tools/gen_lean.py `alloc` regenerates Gen/Alloc.lean (components extended by add_free_dart(s), buckets extended by "
+        "extend_storages, bucket of every bind policy, insert / remove shapes) and Props/C18Gen.lean proves the tables' meaning equal to the model",
         "Rust harness hcimpl, tools/*.py (the oracle recomputes in-use sets from the snapshots)",
     ],
     "assumptions": ["fewer than 2^32 darts", "Vec growth is modelled as array append"],
     "rule": "histories mixing add_free_dart(s), insert_free_dart, remove_free_dart, links/sews and vertex/attribute writes on maps built "
-            "with 0..4 attribute kinds (every mask); after every allocation the whole map is snapshotted and EVERY identifier below the "
+            "with 0..5 attribute kinds (every mask; in 2-D one of them, OTerm, is bound to a CUSTOM orbit, i.e. lives in the manager's `others` bucket); "
+            "transactional removals composed several to a transaction (the same dart twice included); after every allocation the whole map is snapshotted and EVERY identifier below the "
             "dart count is read and written in EVERY registered storage; oracle on the implementation: returned ids non-null, not in use "
             "before, below the new dart count, counters as documented, new dart free and valueless, no panic on any storage access, "
             "removed darts absent from iterators and orbits of in-use darts, removal refused iff linked or already removed. "
@@ -24,7 +33,7 @@ SPEC = {
         "'a newly obtained dart has no coordinates or attribute value' is FALSE on the current code for reused slots (finding D10): proved "
         "negation C18_D10_reused_slot_keeps_stale_value + partial theorem C18_insert_blank_partial",
         "'removed darts are not reported by any orbit of a remaining dart' is proved for 2-maps (C18_orbit_excludes_removed, from C03 + "
-        "C01_unused_is_nobodys_image); for 3-maps it is checked by the oracle only",
+        "C01_unused_is_nobodys_image) and for 3-maps (Props/C18b.lean: C18_orbit3_excludes_removed, from the 3-D orbit specification of C03b)",
     ],
 }
 
@@ -92,6 +101,28 @@ def oracle_c18(case, li):
                 return f"{inp}: counters n_darts/n_unused = {nd[1:]} but documented evolution gives {want_n} {want_u}"
             if after["n"] != want_n:
                 return f"{inp}: n_darts {after['n']} expected {want_n}"
+        elif t[0] == "endtx" and last is not None and out.startswith("tx ok"):
+            # a block of transactional removals: every answer says whether the dart was already removed (earlier, or earlier in this
+            # very transaction); afterwards exactly those darts are flagged in addition
+            j = i - 1
+            ds = []
+            while j >= 0 and lines[j].startswith("rmtx "):
+                ds.insert(0, int(lines[j].split()[1]))
+                j -= 1
+            if ds and lines[j] == "tx" and j >= 1 and lines[j - 1] == "snap":
+                res = [x.strip() for x in out[len("tx ok"):].split(";")]
+                gone = {d for d in range(last["n"]) if last["u"][d] == 1}
+                for d, rr in zip(ds, res):
+                    if d < last["n"]:
+                        want = "true" if d in gone else "false"
+                        if rr != want:
+                            return f"tx rmtx {ds}: removal of dart {d} answered {rr}, but already-removed = {want} at that point of the transaction"
+                        gone.add(d)
+                if i + 1 < len(lines) and lines[i + 1] == "snap":
+                    after = parse_snap(li[i + 1])
+                    got = {d for d in range(after["n"]) if after["u"][d] == 1}
+                    if got != gone:
+                        return f"tx rmtx {ds}: removed set afterwards {sorted(got)} expected {sorted(gone)}"
         elif t[0] == "rm" and last is not None and lines[i - 1] == "snap":
             d = int(t[1])
             if d < last["n"]:
@@ -116,13 +147,15 @@ def oracle_c18(case, li):
 def histories(count, rng, dim=2):
     cases = []
     for c in range(count):
-        mask = rng.choice([0, 1, 2, 4, 16, 3, 5, 7, 19, 23]) if dim == 2 else rng.choice([0, 1, 8, 9, 15, 31])
+        # 2-D: bit 3 (storage 4) is `OTerm`, bound to OrbitPolicy::Custom -- the manager's `others` bucket
+        mask = rng.choice([0, 1, 2, 4, 16, 3, 5, 7, 19, 23, 8, 9, 12, 27, 31]) if dim == 2 else rng.choice([0, 1, 8, 9, 15, 31])
         n = rng.randint(1, 6)
         lines = [f"new {dim} {n} {mask}"]
         cur_n = n + 1
         alive = list(range(1, n + 1))
         maybe_removed = []
-        regs = [s for s in range(1, 6) if (mask >> (s - 1)) & 1 and (dim == 3 or s != 4)]
+        touched = set()      # darts that were ever an argument of a link/sew: possibly not free any more
+        regs = [s for s in range(1, 6) if (mask >> (s - 1)) & 1]
         for step in range(rng.randint(4, 14)):
             r = rng.random()
             if r < 0.25 and alive:
@@ -133,11 +166,25 @@ def histories(count, rng, dim=2):
                     lines.append(f"wa {rng.choice(regs)} {d} {rng.randint(1, 999)}")
             elif r < 0.40 and len(alive) >= 2:
                 l, rr = rng.sample(alive, 2)
+                touched |= {l, rr}
                 ops = [f"flink 1 {l} {rr}", f"flink 2 {l} {rr}", f"funlink 1 {l}", f"funlink 2 {l}", f"fsew 1 {l} {rr}"]
                 if dim == 3:
                     # darts that are only 3-linked (0-, 1-, 2-free) must be refused by remove_free_dart as well
                     ops += [f"flink 3 {l} {rr}", f"flink 3 {l} {rr}", f"funlink 3 {l}", f"funlink 1 {l}"]
                 lines.append(rng.choice(ops))
+            elif r < 0.47 and [d for d in alive + maybe_removed if d not in touched]:
+                # transactional removals composed in ONE transaction (the same dart twice included): each answers whether the dart
+                # was ALREADY removed, as seen by the transaction (documented contract of remove_free_dart_transac; the caller is
+                # responsible for freeness, so only darts that were never an argument of a link are picked)
+                cand = [d for d in alive + maybe_removed if d not in touched]
+                ds = [rng.choice(cand) for _ in range(rng.randint(1, 3))]
+                if rng.random() < 0.5:
+                    ds.append(ds[0])
+                lines += ["snap", "tx"] + [f"rmtx {d}" for d in ds] + ["endtx", "snap"]
+                for d in ds:
+                    if d in alive:
+                        alive.remove(d)
+                        maybe_removed.append(d)
             elif r < 0.62 and (alive or maybe_removed):
                 d = rng.choice(alive + maybe_removed)
                 lines += ["snap", f"rm {d}"]
@@ -174,8 +221,8 @@ def top_probe(count, rng, dim=2):
     """write/read the HIGHEST ids after appends (Vec growth of every storage)"""
     cases = []
     for c in range(count):
-        mask = rng.choice([1, 3, 7, 19, 23]) if dim == 2 else rng.choice([1, 9, 15, 31])
-        regs = [s for s in range(1, 6) if (mask >> (s - 1)) & 1 and (dim == 3 or s != 4)]
+        mask = rng.choice([1, 3, 7, 19, 23, 8, 9, 31]) if dim == 2 else rng.choice([1, 9, 15, 31])
+        regs = [s for s in range(1, 6) if (mask >> (s - 1)) & 1]
         n = rng.randint(0, 3)
         lines = [f"new {dim} {n} {mask}"]
         cur = n + 1
